@@ -268,6 +268,8 @@ G_SMALL = ["lit:97", "lit:10", "any"]
 G_UNARY = ["opt", "rep", "plus", "not", "fatal"]
 G_BINARY = ["seq", "alt"]
 SKIPPERS = ["eps", "rep.cset:32,9", "rep.lit:10"]
+# the library's own skipper::space (repetition over a concrete char_set skipper: space, newline, tab)
+SKIPPER_SPACE = "space"
 # skippers that can fail, or whose repetition body fails after having consumed
 SKIPPERS_X = ["lit:32", "rep.seq.lit:32.lit:9", "seq.rep.lit:32.rep.lit:10", "cset:-"]
 
@@ -368,7 +370,7 @@ def rand_grammar(r, depth):
 
 
 def rand_skipper(r):
-    return r.choice(SKIPPERS + SKIPPERS + SKIPPERS_X + ["rep.cset:32,9,10", "rep.lit:32"])
+    return r.choice(SKIPPERS + SKIPPERS + SKIPPERS_X + ["rep.cset:32,9,10", "rep.lit:32", SKIPPER_SPACE])
 
 
 def gx_ops(kind, grammars, skippers, lengths, fa="-"):
@@ -418,12 +420,23 @@ def batches(rng, tier):
         for t in ([c], [c, 97], [97, c, 10, c]):
             ops.append(f"hist c {txt(t)} - g,p,g,p,g,p,s1,g,p,s0,p")
             ops.append(f"perr c {txt(t)} - g lit 97")
+    # 3b'. counters beyond one byte: a line of 600 characters, 300 lines, and both after rewinds
+    long_a = [97] * 600
+    many_nl = [10] * 300
+    mixed = ([97] * 299 + [10]) * 2 + [97] * 10
+    for kind in ("c", "w"):
+        for t in (long_a, many_nl, mixed):
+            n = len(t)
+            walk = ["p"] + ["g"] * 255 + ["p", "g", "p", "g", "p"] + ["g"] * (n - 257) + ["p", "g", "g", "p", "s1", "p", "g", "p", "s4", "g", "p", "s0", "p"]
+            ops.append(f"hist {kind} {txt(t)} - {','.join(walk)}")
+            ops.append(f"perr {kind} {txt(t + [98])} - {','.join(['g'] * n)} lit 97")
+            ops.append(f"gp {kind} {txt(t + [98])} - - eps seq.rep.cset:97,10.lit:97")
     yield Batch("special-chars", ops, note="newline look-alikes (low byte 0x0A in a wide character, CR, NEL, U+2028), 0, 0xFF, U+10FFFF")
     # 3c. the clients of get_position / set_position: every combinator, every basic_stream call compared
     core, wide = grammar_sets()
     for kind in ("c", "w"):
         ops = gx_ops(kind, core + wide, SKIPPERS, range(0, 6 if thorough else 4))
-        ops += gx_ops(kind, core, SKIPPERS_X, range(0, 5 if thorough else 4))
+        ops += gx_ops(kind, core, SKIPPERS_X + [SKIPPER_SPACE], range(0, 5 if thorough else 4))
         ops += gx_ops(kind, core, SKIPPERS[:2], [6] if thorough and kind == "c" else [])
         if kind == "c" or thorough:
             ops += gx_ops(kind, core, SKIPPERS, [4] if not thorough else [])
